@@ -5,7 +5,9 @@ import (
 	"math/big"
 
 	"github.com/taurusgroup/multi-party-sig/pkg/party"
+	"github.com/taurusgroup/multi-party-sig/pkg/protocol"
 	"github.com/taurusgroup/multi-party-sig/protocols/doerner"
+	"github.com/taurusgroup/multi-party-sig/protocols/frost"
 	"github.com/taurusgroup/multi-party-sig/verif/adv"
 	"github.com/taurusgroup/multi-party-sig/verif/fx"
 	"github.com/taurusgroup/multi-party-sig/verif/ref"
@@ -17,7 +19,7 @@ func init() {
 	vk.Register(&vk.Check{
 		ID:    "C08",
 		Level: "exploration",
-		Rule: "seeded histories over {refresh, serialise+restore, derive-child, sign} after a real key generation for FROST, FROST-Taproot, Doerner and CMP on (n,t) lattices; after every refresh: key unchanged, consistent-key-material oracle, every secret share changed, every enumerated mixed-epoch reconstruction set fails, signing with refreshed material succeeds, a session with 1..|S|-1 stale signers yields no signature at any party; " +
+		Rule: "seeded histories over {refresh, serialise+restore, derive-child, sign} after a real key generation for FROST, FROST-Taproot, Doerner and CMP on (n,t) lattices; after every refresh: key unchanged, consistent-key-material oracle, every secret share changed, every enumerated mixed-epoch reconstruction set fails, signing with refreshed material succeeds, a session with 1..|S|-1 stale signers yields no signature at any party; refreshes that are cut short (share must stay), answered by a peer echoing the refresh contribution, or run against a peer using a share of its own choosing (an honest finisher must still report the old group key); " +
 			"distinct non-trivial = distinct (protocol, n, t, history prefix) whose refresh oracle ran, plus distinct (protocol, n, t, #stale) stale-signer sessions judged",
 		MinDistinct:  30,
 		Assumptions:  []string{"epoch snapshots are taken through the documented encoders before the next refresh (FROST refresh updates the caller's share object in place)", "CMP material from pool primes (hook H1)"},
@@ -45,6 +47,11 @@ func c08Cases(env vk.Env) []vk.Case {
 	for i := 0; i < env.Pick(6, 60); i++ {
 		i := i
 		cs = append(cs, vk.Case{ID: fmt.Sprintf("doerner-cancel/%d", i), Run: func(t *vk.T) { c08DoernerCancel(t, i) }})
+	}
+	for i := 0; i < env.Pick(8, 80); i++ {
+		i := i
+		cs = append(cs, vk.Case{ID: fmt.Sprintf("doerner-foreign-share-peer/%d", i), Run: func(t *vk.T) { c08ForeignPeer(t, "doerner", i) }})
+		cs = append(cs, vk.Case{ID: fmt.Sprintf("frost-foreign-share-peer/%d", i), Run: func(t *vk.T) { c08ForeignPeer(t, "frost", i) }})
 	}
 	cmps := []nt{{3, 1}, {2, 1}, {3, 2}}
 	if env.Thorough() {
@@ -423,5 +430,96 @@ func c08DoernerCancel(t *vk.T, i int) {
 	}
 	if i == 0 {
 		t.Sample(map[string]any{"kind": "doerner refresh against a peer echoing the refresh scalar", "sender_state": fx.Describe(outs)})
+	}
+}
+
+// c08ForeignPeer: a refresh in which one participant runs from altered key material (a share of its own choosing,
+// otherwise well-formed messages and valid proofs).  An honest party that completes must still report the old
+// group key; it may also refuse.
+func c08ForeignPeer(t *vk.T, proto string, i int) {
+	r := t.Rng
+	foreign := LibScalar(randScalarBig(r))
+	check := func(tag string, key ref.Pt, outs []fx.Outcome, corrupt party.ID, keyOf func(v interface{}) (ref.Pt, bool)) {
+		t.Obs("evaluations", 1)
+		for _, oc := range outs {
+			if oc.ID == corrupt {
+				continue
+			}
+			t.Obs("foreign_share_peer|honest_"+oc.State, 1)
+			if oc.Value == nil {
+				continue
+			}
+			got, ok := keyOf(oc.Value)
+			if !ok {
+				continue
+			}
+			if !got.Equal(key) {
+				t.Violation(proto+"|refresh-with-foreign-share-peer|group-key-changed", "%s: honest %q completed a refresh against a peer using a share of its own choosing and now reports another group key", tag, oc.ID)
+			}
+		}
+	}
+	switch proto {
+	case "doerner":
+		ids := fx.IDs(r, i%4, 2)
+		dm, err := fx.NewDoernerMat(r, ids[0], ids[1], fx.Opt{SessionID: r.Bytes(4)})
+		if err != nil {
+			t.Violation("doerner|keygen-failed", "%v", err)
+			return
+		}
+		key := fx.SharesOfDoerner(dm.K)[0].GroupKey
+		R, S := *dm.K.R, *dm.K.S
+		corrupt := dm.K.RID
+		if i%2 == 0 {
+			R.SecretShare = foreign
+		} else {
+			S.SecretShare = foreign
+			corrupt = dm.K.SID
+		}
+		_, outs, err := fx.RunTwo(r, dm.K.RID, dm.K.SID, doerner.RefreshReceiver(&R, dm.K.RID, dm.K.SID, nil), doerner.RefreshSender(&S, dm.K.SID, dm.K.RID, nil), true, false, fx.Opt{SessionID: r.Bytes(4)})
+		if err != nil {
+			t.Obs("foreign_share_peer|refused_at_start", 1)
+			return
+		}
+		t.Distinct("doerner|refresh-with-foreign-share-peer|corrupt-receiver=%v|alphabet=%d", i%2 == 0, i%4)
+		check(fmt.Sprintf("doerner corrupt=%q", corrupt), key, outs, corrupt, func(v interface{}) (ref.Pt, bool) {
+			switch c := v.(type) {
+			case *doerner.ConfigSender:
+				p, err := fx.PtOf(c.Public)
+				return p, err == nil
+			case *doerner.ConfigReceiver:
+				p, err := fx.PtOf(c.Public)
+				return p, err == nil
+			}
+			return ref.Pt{}, false
+		})
+	case "frost":
+		n, th := 3+i%2, 1
+		ids := fx.IDs(r, i%3, n)
+		fm, err := fx.NewFrostMat(r, ids, th, fx.Opt{})
+		if err != nil {
+			t.Inconclusive("keygen: %v", err)
+			return
+		}
+		key := fm.Shares()[0].GroupKey
+		corrupt := ids[i%n]
+		_, outs, err := fx.RunMulti(r, ids, func(id party.ID) protocol.StartFunc {
+			c := fx.CloneFrost(fm.Cfgs[id])
+			if id == corrupt {
+				c.PrivateShare = foreign
+			}
+			return frost.Refresh(c, ids)
+		}, fx.Opt{})
+		if err != nil {
+			t.Obs("foreign_share_peer|refused_at_start", 1)
+			return
+		}
+		t.Distinct("frost|refresh-with-foreign-share-peer|n=%d|position=%d", n, i%n)
+		check(fmt.Sprintf("frost n=%d corrupt=%q", n, corrupt), key, outs, corrupt, func(v interface{}) (ref.Pt, bool) {
+			if c, ok := v.(*frost.Config); ok {
+				p, err := fx.PtOf(c.PublicKey)
+				return p, err == nil
+			}
+			return ref.Pt{}, false
+		})
 	}
 }
